@@ -76,12 +76,19 @@ func satisfyNormalized(c *m.Crit, d *document.Document) (res bool, pan interface
 
 // CritSweep: every criteria tree x every document, through FindAll and through Satisfy, against the model;
 // the Boolean laws are additionally checked directly on clover's own answers.
-func CritSweep(run *ev.Run, backend string, docs []m.Doc, trees []*m.Crit, laws []*m.Crit) {
+func CritSweep(run *ev.Run, backend string, docs []m.Doc, trees []*m.Crit, laws []*m.Crit, indexes ...string) {
 	in := drv.MustOpen(backend)
 	defer in.Close()
 	if err := in.DB.CreateCollection("a"); err != nil {
 		panic(err)
 	}
+	for _, f := range indexes {
+		// the planner's criteria visitors only run when the collection has an index (on any field)
+		if err := in.DB.CreateIndex("a", f); err != nil {
+			panic(err)
+		}
+	}
+	backend = backend + "+idx" + strings.Join(indexes, "+")
 	cdocs := make([]*document.Document, len(docs))
 	byID := map[string]m.Doc{}
 	for i, d := range docs {
@@ -101,7 +108,7 @@ func CritSweep(run *ev.Run, backend string, docs []m.Doc, trees []*m.Crit, laws 
 		<-lock
 		defer func() { lock <- struct{}{} }()
 		if ws[w] == nil {
-			ws[w] = drv.MustOpen(backend)
+			ws[w] = drv.MustOpen(in.Backend)
 			ws[w].Fresh(snap)
 		}
 		return ws[w]
